@@ -194,15 +194,16 @@ class FakeAioSession:
 class AsyncClientWorld:
     impl = 'async'
 
-    def __init__(self, client_kwargs=None):
+    def __init__(self, client_kwargs=None, shared=None, session=None):
         import engineio
-        self.clock = vclock.VClock()
+        self.shared = shared
+        self.clock = shared.clock if shared else vclock.VClock()
         vclock.set_current(self.clock)
         vclock.install()
-        self.loop = vloop.VLoop(self.clock)
+        self.loop = shared.loop if shared else vloop.VLoop(self.clock)
         self.log = base.QuietLogger()
         self.server = ScriptedServer(self)
-        self.session = FakeAioSession(self)
+        self.session = session if session is not None else FakeAioSession(self)
         kw = dict(logger=self.log, http_session=self.session, handle_sigint=False, request_timeout=5)
         kw.update(client_kwargs or {})
         _reset_client_globals()
@@ -220,7 +221,7 @@ class AsyncClientWorld:
         self.effect_log = []
         self.calls = []
         self.tasks = {}
-        self.nstep = 0
+        self._nstep = 0
         self._install()
 
     def _install(self):
@@ -344,7 +345,40 @@ class AsyncClientWorld:
             self.tasks[c] = self.loop.create_task(runner())
         return c
 
+    def call_seq(self, name, arglist):
+        """Several calls of one method back to back from one application task."""
+        c = base.Call(len(self.calls), name + '*%d' % len(arglist), arglist)
+        self.calls.append(c)
+        w = self
+
+        async def runner():
+            try:
+                for a in arglist:
+                    await getattr(w.client, name)(*a)
+            except asyncio.CancelledError:
+                raise
+            except Exception as e:
+                c.exc = {'type': type(e).__name__, 'text': str(e)[:200], 'site': site_of_tb(e.__traceback__)}
+            finally:
+                c.step_done = w.nstep
+                c.done = True
+        vclock.set_current(self.clock)
+        with self.loop.enter():
+            self.tasks[c] = self.loop.create_task(runner())
+        return c
+
     # ---- stepping
+    @property
+    def nstep(self):
+        return self.shared.nstep if self.shared else self._nstep
+
+    @nstep.setter
+    def nstep(self, v):
+        if self.shared:
+            self.shared.nstep = v
+        else:
+            self._nstep = v
+
     @property
     def now(self):
         return self.clock.now
@@ -412,7 +446,8 @@ class AsyncClientWorld:
         old = sys.unraisablehook
         sys.unraisablehook = lambda *a: None
         try:
-            self.loop.teardown()
+            if not self.shared:
+                self.loop.teardown()
             self.tasks.clear()
             _reset_client_globals()
             gc.collect()
@@ -539,18 +574,20 @@ class FakeSyncSession:
 class SyncClientWorld:
     impl = 'sync'
 
-    def __init__(self, client_kwargs=None, trace_funcs=None):
+    def __init__(self, client_kwargs=None, trace_funcs=None, shared=None, session=None, ws_connect=None):
         import engineio
         import engineio.client as ec
-        self.clock = vclock.VClock()
+        self.shared = shared
+        self.clock = shared.clock if shared else vclock.VClock()
         vclock.set_current(self.clock)
         vclock.install()
-        self.sched = vthreads.Sched(self.clock)
+        self.sched = shared.sched if shared else vthreads.Sched(self.clock)
         if trace_funcs:
             self.sched.trace_funcs = set(trace_funcs)
         self.log = base.QuietLogger()
         self.server = ScriptedServer(self)
-        self.session = FakeSyncSession(self)
+        self.session = session if session is not None else FakeSyncSession(self)
+        self._ws_connect_override = ws_connect
         # stand-ins for the requests / websocket-client modules
         fake_requests = types.SimpleNamespace(
             exceptions=types.SimpleNamespace(RequestException=FakeRequestException),
@@ -558,6 +595,8 @@ class SyncClientWorld:
         world = self
 
         def create_connection(url, **opts):
+            if world._ws_connect_override is not None:
+                return world._ws_connect_override(url, opts)
             return world._client_ws_connect(url, opts)
         fake_ws = types.SimpleNamespace(
             create_connection=create_connection, WebSocketException=WSException,
@@ -595,7 +634,7 @@ class SyncClientWorld:
         self.effect_log = []
         self.calls = []
         self.vts = {}
-        self.nstep = 0
+        self._nstep = 0
         self._install()
 
     def _install(self):
@@ -705,7 +744,39 @@ class SyncClientWorld:
         self.vts[c] = self.sched.spawn(worker, 'call%d' % c.cid, 'env')
         return c
 
+    def call_seq(self, name, arglist):
+        c = base.Call(len(self.calls), name + '*%d' % len(arglist), arglist)
+        self.calls.append(c)
+        w = self
+
+        def worker():
+            try:
+                w.sched.point('api')
+                for a in arglist:
+                    getattr(w.client, name)(*a)
+            except vthreads.Unwind:
+                raise
+            except Exception as e:
+                c.exc = {'type': type(e).__name__, 'text': str(e)[:200], 'site': site_of_tb(e.__traceback__)}
+            finally:
+                c.step_done = w.nstep
+                if not w.sched.killing:
+                    c.done = True
+        self.vts[c] = self.sched.spawn(worker, 'callseq%d' % c.cid, 'env')
+        return c
+
     # ---- stepping
+    @property
+    def nstep(self):
+        return self.shared.nstep if self.shared else self._nstep
+
+    @nstep.setter
+    def nstep(self, v):
+        if self.shared:
+            self.shared.nstep = v
+        else:
+            self._nstep = v
+
     @property
     def now(self):
         return self.clock.now
@@ -782,7 +853,8 @@ class SyncClientWorld:
     def teardown(self):
         vclock.set_current(self.clock)
         self.client.handlers = {}
-        self.sched.kill()
+        if not self.shared:
+            self.sched.kill()
         self.vts.clear()
         _reset_client_globals()
 
